@@ -247,7 +247,11 @@ func verifUpdated() {
 	texts := []string{"", "ab", "abc\nd", "x\ny\nz", "wide-text", "cd", "xyz\nw", "up  ", "down"}
 	t := New()
 	m := &vfMutableText{texts[1+vfChoice("before", 8)]}
-	t.AddHeaders("h1", "h2")
+	// headers: 0 none, 1 two headers, 2 two headers, replaced by a single shorter one before the last render
+	hmode := vfChoice("headers", 3)
+	if hmode != 0 {
+		t.AddHeaders("h1", "header-two")
+	}
 	t.AddRowItems(m, "q")
 	t.AddRowItems("r")
 	if vfChoice("render-first", 2) == 1 {
@@ -255,6 +259,9 @@ func verifUpdated() {
 	}
 	after := texts[vfChoice("after", 9)]
 	m.s = after
+	if hmode == 2 {
+		t.AddHeaders("h")
+	}
 	c, _ := t.CellAt(tabular.CellLocation{Row: 1, Column: 1})
 	c.Update()
 	name := vfDecoNames[vfChoice("deco", 3)]
@@ -263,9 +270,14 @@ func verifUpdated() {
 	out, err := t.Render()
 	vfAssert(err == nil, "render-ok")
 	one := func(s string) vfCellSpec { return vfCellSpec{lines: vfLinesOf(s), declW: -1, declH: -1} }
-	hdr := []vfCellSpec{one("h1"), one("h2")}
+	hdr := []vfCellSpec{one("h1"), one("header-two")}
+	if hmode == 2 {
+		hdr = []vfCellSpec{one("h")}
+	} else if hmode == 0 {
+		hdr = nil
+	}
 	rows := []vfRowSpec{{cells: []vfCellSpec{one(after), one("q")}}, {cells: []vfCellSpec{one("r")}}}
-	want := vfRefRender(d, d == decoration.NoBox(), true, hdr, rows, 2, make([]int, 2))
+	want := vfRefRender(d, d == decoration.NoBox(), hmode != 0, hdr, rows, 2, make([]int, 2))
 	vfAssert(out == want, "layout-as-documented")
 	vfRectangle(out, 2, vfColWidths(hdr, rows, 2), d == decoration.NoBox())
 }
